@@ -76,10 +76,10 @@ def _is_view(h, data, buf, lo, n):
     return len(data) == n and bytes(data) == bytes(buf[lo:lo + n]) and lo + n <= len(buf)
 
 
-def _payload(h, name="payload", min_len=0, max_len=65533):
+def _payload(h, name="payload", min_len=0, max_len=65533, native_fix=None):
     """An arbitrary payload of arbitrary (symbolic) length and its length, which is also the announced
     message_length: the receive path reads exactly message_length payload bytes."""
-    buf = h.abytes(name, min_len=min_len, max_len=max_len)
+    buf = h.abytes(name, min_len=min_len, max_len=max_len, native_fix=native_fix)
     return buf, h.length(buf)
 
 
@@ -602,7 +602,8 @@ def xff11_decode_longer(h):
     """C17: "status records longer than the known layout are decoded from their known prefix".  One AC
     whose record announces E >= 1 more following bytes than the 24 known today (a newer console); every E
     the length byte can express (unbounded: symbolic E, loop contract on the decode loop)."""
-    buf, mlen = _payload(h, min_len=ABILITY_RECORD + 1, max_len=2 + 255)
+    buf, mlen = _payload(h, min_len=ABILITY_RECORD + 1, max_len=2 + 255,
+                         native_fix=lambda raw: raw.__setitem__(1, ABILITY_KNOWN_FOLLOWING + len(raw) - ABILITY_RECORD))
     extra = mlen - ABILITY_RECORD
     h.assume(_byte_at(h, buf, 1) == ABILITY_KNOWN_FOLLOWING + extra, "the one record announces its real length")
     dec = h.new(XABL + ":AcAbilityDecoder")
